@@ -75,6 +75,11 @@ type VC struct {
 	retSeen      map[string]int
 	lemmaPkg     *types.Package
 	preparing    bool
+	pendingGhostInit bool
+	ghostT       map[string]*GT
+	ghostScalar  map[string]types.Type
+	updatesAt    map[ssa.Instruction][]*UpdateClause
+	lastGhostResults map[string]Val
 }
 
 type loopInfo struct {
@@ -86,6 +91,8 @@ type loopInfo struct {
 	modComps map[string]bool
 	allocs   bool
 	clauses  []*Clause
+	modPseudo    map[string]bool
+	modAllPseudo bool
 	headSt   *State // state at the loop head (after havoc)
 	decVals  []string
 }
@@ -148,6 +155,50 @@ func (vc *VC) assume(text string) {
 
 // splitAnd splits a top-level (and ...) s-expression into its conjuncts.
 func splitAnd(g string) []string {
+	// forall x. (G => (and A B))  ==>  forall x. (G => A), forall x. (G => B)
+	if strings.HasPrefix(g, "(forall (") {
+		// find end of binder list
+		depth := 0
+		end := -1
+		for i := 8; i < len(g); i++ {
+			if g[i] == '(' {
+				depth++
+			} else if g[i] == ')' {
+				depth--
+				if depth == 0 {
+					end = i
+					break
+				}
+			}
+		}
+		if end > 0 && end+2 < len(g) {
+			binders := g[8 : end+1]
+			body := strings.TrimSpace(g[end+1 : len(g)-1])
+			if strings.HasPrefix(body, "(=> ") {
+				parts := topLevelArgs(body[4 : len(body)-1])
+				if len(parts) == 2 {
+					cons := splitAnd(parts[1])
+					if len(cons) > 1 {
+						var out []string
+						for _, c := range cons {
+							out = append(out, "(forall "+binders+" (=> "+parts[0]+" "+c+"))")
+						}
+						return out
+					}
+				}
+			} else if strings.HasPrefix(body, "(and ") {
+				cons := splitAnd(body)
+				if len(cons) > 1 {
+					var out []string
+					for _, c := range cons {
+						out = append(out, "(forall "+binders+" "+c+")")
+					}
+					return out
+				}
+			}
+		}
+		return []string{g}
+	}
 	if !strings.HasPrefix(g, "(and ") {
 		return []string{g}
 	}
@@ -186,6 +237,40 @@ func splitAnd(g string) []string {
 		out = append(out, splitAnd(p)...)
 	}
 	return out
+}
+
+// topLevelArgs splits the arguments of an s-expression body.
+func topLevelArgs(body string) []string {
+	var parts []string
+	depth := 0
+	start := 0
+	inBar := false
+	for i := 0; i < len(body); i++ {
+		c := body[i]
+		if c == '|' {
+			inBar = !inBar
+		}
+		if inBar {
+			continue
+		}
+		switch c {
+		case '(':
+			depth++
+		case ')':
+			depth--
+		case ' ':
+			if depth == 0 {
+				if i > start {
+					parts = append(parts, body[start:i])
+				}
+				start = i + 1
+			}
+		}
+	}
+	if start < len(body) {
+		parts = append(parts, body[start:])
+	}
+	return parts
 }
 
 func (vc *VC) oblige(class, name string, props []string, goal string, cl *Clause) *Obligation {
@@ -284,9 +369,11 @@ func (vc *VC) generate() (err error) {
 	vc.topoOrder()
 	vc.declare("|alloc@0|", "Int")
 	vc.entry = &State{cells: map[*ssa.Alloc]Val{}, heaps: map[string]string{}, pseudo: map[string]string{}, alloc: "|alloc@0|"}
-	st := vc.entry.clone()
 	vc.curBlk = 0
 	vc.curReach = "true"
+	vc.planUpdates()
+	vc.pendingGhostInit = true
+	st := vc.entry.clone()
 	// parameters and free variables
 	for _, p := range fn.Params {
 		v := vc.freshVal("p_"+p.Name(), p.Type())
@@ -311,6 +398,10 @@ func (vc *VC) generate() (err error) {
 			vc.assume(vc.evalBool(c.E, env, st, st))
 		}
 	}
+	vc.initGhosts(st)
+	for k, v := range st.pseudo {
+		vc.entry.pseudo[k] = v
+	}
 	// cover: the preconditions are satisfiable
 	cv := vc.oblige("cover", "requires", []string{"*"}, "true", nil)
 	cv.ExpectSat = true
@@ -330,7 +421,7 @@ func (vc *VC) findLoops() {
 			if b.Dominates(p) {
 				li := vc.loops[b]
 				if li == nil {
-					li = &loopInfo{header: b, body: map[*ssa.BasicBlock]bool{b: true}, modCells: map[*ssa.Alloc]bool{}, modComps: map[string]bool{}}
+					li = &loopInfo{header: b, body: map[*ssa.BasicBlock]bool{b: true}, modCells: map[*ssa.Alloc]bool{}, modComps: map[string]bool{}, modPseudo: map[string]bool{}}
 					vc.loops[b] = li
 					vc.loopList = append(vc.loopList, li)
 				}
@@ -555,6 +646,7 @@ func (vc *VC) execBlock(b *ssa.BasicBlock, initial *State) {
 	}
 	for _, ins := range b.Instrs {
 		vc.execInstr(ins, st)
+		vc.runUpdates(ins, st)
 	}
 	vc.out[b] = st
 	// back edges out of this block
@@ -727,7 +819,25 @@ func (vc *VC) scanLoop(li *loopInfo) {
 					li.allocs = true
 				}
 			case *ssa.Next:
-				li.modCells[nil] = true // pseudo cells are havoced wholesale
+				// an iterator created inside the loop body has no cell at the head
+				if it, ok := vc.regs[x.Iter]; ok && it.Iter != nil {
+					li.modPseudo[it.Iter.visited] = true
+				}
+			}
+			for _, u := range vc.updatesAt[ins] {
+				for _, a := range u.Assigns {
+					lhs := a.LHS
+					for {
+						if ix, ok := lhs.(*EIndex); ok {
+							lhs = ix.X
+							continue
+						}
+						break
+					}
+					if id, ok := lhs.(*EIdent); ok {
+						li.modPseudo[id.Name] = true
+					}
+				}
 			}
 			if v, ok := ins.(ssa.Value); ok {
 				if _, isConv := ins.(*ssa.Convert); isConv {
@@ -783,7 +893,9 @@ func (vc *VC) havocLoop(li *loopInfo, st *State) {
 		vc.loopFrame(li, c, old, nc, pre)
 	}
 	for k := range st.pseudo {
-		st.pseudo[k] = vc.fresh("h_"+k, vc.pseudoSort(k))
+		if li.modAllPseudo || li.modPseudo[k] {
+			st.pseudo[k] = vc.fresh("h_"+k, vc.pseudoSort(k))
+		}
 	}
 	// recursive spec predicates over pre-existing objects keep their value
 	// when only fresh memory (outside the function's frame) was written
